@@ -90,6 +90,9 @@ void LoadData(const JSON& data, ccl::semantic::RSModel& model) {
   SetOfEntities calculated{};
   for (auto it = begin(data); it != end(data); ++it) {
     const auto uid = it->at("entityUID").get<EntityUID>();
+    if (!model.Contains(uid)) {
+      continue; // Note: data for a missing constituent is ignored
+    }
     if (it->at("wasCalculated").get<bool>()) {
       calculated.insert(uid);
     }
